@@ -31,11 +31,11 @@ def h_select(P, n, k_elites, d=1):
         P.observe(f"out{j}.f", o.fitness)
 
 
-def h_de(P, n, d=1, dither=False, shade=False):
+def h_de(P, n, d=1, dither=False, shade=False, maximize="sym"):
     """One generation of DE / SHADE: one-to-one replacement => slot-wise no worsening, hence k-th best never worsens."""
     from pyhms.demes.single_pop_eas.de import DE, SHADE
 
-    prob, F, maximize, bounds = mk_problem(P, d)
+    prob, F, maximize, bounds = mk_problem(P, d, maximize=maximize)
     stub_apply_bounds(P)
     parents = mk_inds(P, prob, n, d, "p", fitness="F", F=F, bounds=bounds)
     base = F.n_calls()
@@ -125,10 +125,13 @@ def cases(tier):
         for k in (1, 2):
             cs.append(dict(name=f"select.real.n{n}.k{k}", fn=h_select, params=dict(n=n, k_elites=k), profile="real", budget_s=3000,
                            weight=n * n, argsort_mode="fork-ties" if (n == 3 and k == 1) else "fork"))
-    cs.append(dict(name="de.n4", fn=h_de, params=dict(n=4), profile="fp", budget_s=1500, weight=20))
-    cs.append(dict(name="de.dither.n4", fn=h_de, params=dict(n=4, dither=True), profile="fp", budget_s=1500, weight=20))
-    cs.append(dict(name="shade.n4", fn=h_de, params=dict(n=4, shade=True), profile="fp", budget_s=1500, weight=20, portfolio=True, separate=True,
-                   oblig_timeout_s=120, cores=2))
+    # one case per optimisation direction (the direction is the first fork anyway; two cases run in parallel)
+    for mx in (True, False):
+        tag = "max" if mx else "min"
+        cs.append(dict(name=f"de.n4.{tag}", fn=h_de, params=dict(n=4, maximize=mx), profile="fp", budget_s=1500, weight=20))
+        cs.append(dict(name=f"de.dither.n4.{tag}", fn=h_de, params=dict(n=4, dither=True, maximize=mx), profile="fp", budget_s=1500, weight=20))
+        cs.append(dict(name=f"shade.n4.{tag}", fn=h_de, params=dict(n=4, shade=True, maximize=mx), profile="fp", budget_s=1500, weight=20, portfolio=True,
+                       separate=True, oblig_timeout_s=120, cores=2))
     # the real engines (SEA, DE, SHADE, CMA-ES) along real histories, both directions, plateau objective (ties) included
     from .trun import run_cases
     from .tstep import tree_cases
